@@ -22,10 +22,10 @@ import GaeaVerif.Gen.Consts
                                    indexes inside the rule's slice list, slices are namespace slices,
                                    one database per listed table for Mycat and global rules
     pinned_global_slice_index_witness  what NewRouter did to a global rule before c29cd53
-    shard_fn_in_range              hash, mod, range, mycat_long/string/murmur/padding_mod: for every
+    shard_fn_in_range              hash, mod, range, mycat_mod/long/string/murmur/padding_mod: for every
                                    key FindTableIndex never panics and an index it returns is listed
-    mycatMod_in_range_partial      mycat_mod: the same for keys other than MinInt64
-    mycatMod_negative_index_witness  … and what happens for MinInt64 (repaired on branch agent-shard)
+    mycatMod_in_range, mycatMod_value  mycat_mod spelled out: every key, MinInt64 included; |key| mod count
+    pinned_mycatMod_negative_index_witness  what mycat_mod did for MinInt64 before 722beea
     constants_tie                  the constants the model uses are those of the current source
 -/
 namespace GaeaVerif.C10
@@ -171,14 +171,15 @@ theorem routing_table_unambiguous (n : Namespace) (r : Router) (h : newRouter n 
 /-! ### the sharding function only names listed tables -/
 
 /-- For every rule of a loaded router whose type is hash, mod, range,
-    mycat_long, mycat_string, mycat_murmur or mycat_padding_mod, and for every
-    key (an int64, a uint64 or a string), `FindTableIndex` does not panic and
-    an index it returns is one of the rule's listed sub tables.  The murmur
-    hash is arbitrary (`bucketOf`, `keyHash`).  `hlen` is Go's bound on the
-    length of a slice. -/
+    mycat_mod, mycat_long, mycat_string, mycat_murmur or mycat_padding_mod, and
+    for every key (an int64, a uint64 or a string), `FindTableIndex` does not
+    panic and an index it returns is one of the rule's listed sub tables.  The
+    murmur hash is arbitrary (`bucketOf`, `keyHash`).  `hlen` is Go's bound on
+    the length of a slice.  (mycat_mod is included since fix 722beea, `|key| mod
+    count` on the full integer, is part of the tree: no key is excluded.) -/
 theorem shard_fn_in_range (n : Namespace) (r : Router) (h : newRouter n = .ok r)
     (k : Str × Str) (rule : Rule) (hk : r.get k = some rule)
-    (hprobed : rule.target.shard.probed = true) (hnm : ∀ m, rule.target.shard ≠ .mycatMod m)
+    (hprobed : rule.target.shard.probed = true)
     (hlen : (rule.target.subTableIndexes.length : Int) ≤ 2 ^ 63)
     (bucketOf : Nat → Nat → Int) (keyHash : Str → Int) (key : Key) (hkey : key.WF) :
     findForKey bucketOf keyHash rule.target.shard key ≠ .panic ∧
@@ -188,25 +189,33 @@ theorem shard_fn_in_range (n : Namespace) (r : Router) (h : newRouter n = .ok r)
       intro s _ _ b hb
       exact (parseRule_spec s b hb).2.2.2.2.2) h
   have hwf := hall (k, rule) (lookup_mem _ _ _ hk)
-  exact findForKey_spec bucketOf keyHash _ _ hwf hlen key hkey
-    (fun m hm => absurd hm (hnm m)) hprobed
+  exact findForKey_spec bucketOf keyHash _ _ hwf hlen key hkey hprobed
 
-/-- mycat_mod: the same for every key whose integer value is not MinInt64.
-    (Full statement, false of the code on this branch: without `hmin`; see
-    `mycatMod_negative_index_witness`.  Repaired by 722beea on branch agent-shard.) -/
-theorem mycatMod_in_range_partial (n : Namespace) (r : Router) (h : newRouter n = .ok r)
+/-- mycat_mod, spelled out (the former `mycatMod_in_range_partial`, which
+    excluded the key MinInt64, at full strength): for every key — every int64,
+    MinInt64 included, every uint64, every string — `FindTableIndex` of a
+    loaded mycat_mod rule does not panic, and an index it returns is listed. -/
+theorem mycatMod_in_range (n : Namespace) (r : Router) (h : newRouter n = .ok r)
     (k : Str × Str) (rule : Rule) (hk : r.get k = some rule)
     (m : Int) (hm : rule.target.shard = .mycatMod m)
     (hlen : (rule.target.subTableIndexes.length : Int) ≤ 2 ^ 63)
-    (key : Key) (hkey : key.WF) (hmin : ∀ v, numValue key = .ok v → v ≠ minInt64) :
+    (key : Key) (hkey : key.WF) :
     findForKey (fun _ _ => 0) (fun _ => 0) rule.target.shard key ≠ .panic ∧
-    ∀ i, findForKey (fun _ _ => 0) (fun _ => 0) rule.target.shard key = .ok i → i ∈ rule.target.subTableIndexes := by
-  have hall := newRouter_all (fun b => ShardWF b.shard b.subTableIndexes) n r
-    (by
-      intro s _ _ b hb
-      exact (parseRule_spec s b hb).2.2.2.2.2) h
-  have hwf := hall (k, rule) (lookup_mem _ _ _ hk)
-  exact findForKey_spec _ _ _ _ hwf hlen key hkey (fun _ _ v hv => hmin v hv) (by rw [hm]; rfl)
+    ∀ i, findForKey (fun _ _ => 0) (fun _ => 0) rule.target.shard key = .ok i → i ∈ rule.target.subTableIndexes :=
+  shard_fn_in_range n r h k rule hk (by rw [hm]; rfl) hlen _ _ key hkey
+
+/-- … and what a mycat_mod rule of `m > 0` tables returns: `|key| mod m` of the
+    key read as an integer of any size; a key that is not a decimal integer is
+    rejected (the recovered KeyError). -/
+theorem mycatMod_value (m : Int) (key : Key) (hm : 0 < m) :
+    findForKey (fun _ _ => 0) (fun _ => 0) (.mycatMod m) key =
+      match parseBigDec (getString key) with
+      | some v => .ok ((v.natAbs : Int) % m)
+      | none => .fail := by
+  simp only [findForKey]
+  cases parseBigDec (getString key) with
+  | none => rfl
+  | some v => simp only; rw [if_neg (by omega)]
 
 /-! ### concrete configurations: the hypotheses are satisfiable, and the witnesses of the open findings -/
 
@@ -267,9 +276,14 @@ example : (exRouter.get (exDb, ['g'])).map (fun rule => (rtOf rule.target.ruleTy
     some (.global, [exS0, exS1]) := by decide
 
 set_option maxRecDepth 100000 in
-/-- `mycatMod_in_range_partial`: a mycat_mod rule and a key that satisfies `hmin` -/
+/-- `mycatMod_in_range`: a loaded mycat_mod rule; the keys the former `_partial`
+    excluded (MinInt64 as int64, 2^63 as uint64, a 30-digit string) are placed
+    in listed tables -/
 example : (exRouter.get (exDb, ['m'])).map (fun rule => rule.target.shard) = some (.mycatMod 3) ∧
-    numValue (.int (-7)) = .ok (-7) ∧ (-7 : Int) ≠ minInt64 := by decide
+    findForKey (fun _ _ => 0) (fun _ => 0) (.mycatMod 3) (.int minInt64) = .ok 2 ∧
+    findForKey (fun _ _ => 0) (fun _ => 0) (.mycatMod 3) (.uint (2 ^ 63)) = .ok 2 ∧
+    findForKey (fun _ _ => 0) (fun _ => 0) (.mycatMod 3) (.str "-100000000000000000000000000001".toList) = .ok 2 ∧
+    findForKey (fun _ _ => 0) (fun _ => 0) (.mycatMod 3) (.str ['1', '_', '0']) = .fail := by decide
 
 /-- A global rule that lists the slices s1, s0, s0 in a namespace with the two
     slices s0, s1 (the former open finding `global-slice-index-out-of-range`). -/
@@ -309,16 +323,26 @@ def mRouter : Router :=
   | .ok r => r
   | _ => ⟨[], []⟩
 
+/-- what `MycatPartitionModShard.FindForKey` computed before 722beea:
+    `int(hack.Abs(NumValue(key)) % int64(m.ShardNum))` -/
+def pinnedMycatModFind (n : Int) (key : Key) : R Int :=
+  match numValue key with
+  | .ok v => if n = 0 then .panic else .ok (goMod (hackAbs v) n)
+  | .fail => .fail
+  | .panic => .panic
+
 set_option maxRecDepth 100000 in
-/-- On this branch `MycatPartitionModShard.FindForKey` computes
-    `hack.Abs(MinInt64) % 3 = -2`: an accepted, loaded mycat_mod rule names the
-    table -2, which is not listed. -/
-theorem mycatMod_negative_index_witness :
+/-- Regression record of the former finding: the namespace is accepted and
+    loaded, its mycat_mod rule lists the tables 0, 1, 2; the pinned code computed
+    `hack.Abs(MinInt64) % 3 = -2`, a table that is not listed; the repaired code
+    places MinInt64 in table 2 = 2^63 mod 3. -/
+theorem pinned_mycatMod_negative_index_witness :
     verify mNamespace = .ok () ∧ newRouter mNamespace = .ok mRouter ∧
     (mRouter.get (exDb, ['m'])).map
       (fun rule => (rule.target.subTableIndexes,
         findForKey (fun _ _ => 0) (fun _ => 0) rule.target.shard (.int minInt64))) =
-      some ([0, 1, 2], .ok (-2)) := by decide
+      some ([0, 1, 2], .ok 2) ∧
+    pinnedMycatModFind 3 (.int minInt64) = .ok (-2) := by decide
 
 end Examples
 
